@@ -197,6 +197,8 @@ def e2e_one(samp, c):
     np.random.seed(c["prior"])
     for _ in range(c["prior"] % 7):
         np.random.random()
+    if c["prior"] % 3 == 1:
+        np.random.randn()           # an odd number of normal draws leaves a cached Box-Muller value in the state (has_gauss = 1)
     st0 = np.random.get_state()
     samp._poisson = spy
     t0 = time.time()
